@@ -458,6 +458,65 @@ mod if_alloc {
             }
         }
 
+        /// A reference to the state of a shared channel which is not counted
+        /// as receiver (verification hook)
+        #[cfg(futures_intrusive_verif)]
+        pub struct VerifSharedOneshotBroadcast<MutexType, T>
+        where
+            MutexType: RawMutex,
+            T: Clone + 'static,
+        {
+            inner: alloc::sync::Arc<
+                GenericOneshotChannelSharedState<MutexType, T>,
+            >,
+        }
+
+        #[cfg(futures_intrusive_verif)]
+        impl<MutexType, T> core::fmt::Debug
+            for VerifSharedOneshotBroadcast<MutexType, T>
+        where
+            MutexType: RawMutex,
+            T: Clone,
+        {
+            fn fmt(&self, f: &mut core::fmt::Formatter) -> core::fmt::Result {
+                f.debug_struct("VerifSharedOneshotBroadcast").finish()
+            }
+        }
+
+        #[cfg(futures_intrusive_verif)]
+        impl<MutexType, T> VerifSharedOneshotBroadcast<MutexType, T>
+        where
+            MutexType: RawMutex,
+            T: Clone,
+        {
+            /// See `GenericOneshotBroadcastChannel::verif_snapshot`
+            pub fn verif_snapshot(
+                &self,
+                tag_of: &dyn Fn(&T) -> u64,
+            ) -> crate::verif::Snapshot {
+                let mut snap = self.inner.channel.verif_snapshot(tag_of);
+                snap.scalars
+                    .push(self.inner.receivers.load(Ordering::SeqCst) as u64);
+                snap
+            }
+        }
+
+        #[cfg(futures_intrusive_verif)]
+        impl<MutexType, T> GenericOneshotBroadcastSender<MutexType, T>
+        where
+            MutexType: RawMutex,
+            T: Clone,
+        {
+            /// Returns an uncounted reference to the shared channel state
+            pub fn verif_shared(
+                &self,
+            ) -> VerifSharedOneshotBroadcast<MutexType, T> {
+                VerifSharedOneshotBroadcast {
+                    inner: self.inner.clone(),
+                }
+            }
+        }
+
         // Export parking_lot based shared channels in std mode
         #[cfg(feature = "std")]
         mod if_std {
@@ -496,3 +555,23 @@ mod if_alloc {
 
 #[cfg(feature = "alloc")]
 pub use self::if_alloc::*;
+
+#[cfg(all(futures_intrusive_verif, feature = "alloc"))]
+mod verif_hooks {
+    use super::*;
+    use crate::channel::channel_future::verif_hooks::describe_recv;
+    use crate::verif::{snap_list, Snapshot, NO_VALUE};
+
+    impl<MutexType: RawMutex, T: Clone> GenericOneshotBroadcastChannel<MutexType, T> {
+        /// Scalars: `[is_fulfilled, tag of the stored value]`, queue: waiters
+        pub fn verif_snapshot(&self, tag_of: &dyn Fn(&T) -> u64) -> Snapshot {
+            let state = self.inner.lock();
+            let mut snap = Snapshot::default();
+            snap.scalars.push(state.is_fulfilled as u64);
+            snap.scalars
+                .push(state.value.as_ref().map_or(NO_VALUE, |v| tag_of(v)));
+            snap_list(&state.waiters, &mut snap, &describe_recv);
+            snap
+        }
+    }
+}
